@@ -2,6 +2,7 @@ package main
 
 import (
 	"fmt"
+	"os"
 	"go/constant"
 	"go/types"
 	"sort"
@@ -119,7 +120,8 @@ func (vc *VC) define(hint, sort, term string) string {
 		return term
 	}
 	n := vc.fresh(hint)
-	if sort != "Bool" && strings.Contains(term, "(ite ") {
+	if sort != "Bool" && strings.Contains(term, "(ite ") && os.Getenv("GOVC_DECLITE") != "" {
+		// (experimental, off by default: it helped some obligations and lost others)
 		// a value that is a case split (phi merge, in-place or reallocating append):
 		// name it by a constant rather than a macro, so that triggers mentioning it
 		// stay usable (solvers reject patterns that contain ite once the macro is
@@ -153,7 +155,11 @@ func (vc *VC) oblige(kind, label, cond, goal, pos, src string, props []string) *
 	if k > 0 {
 		label = fmt.Sprintf("%s#%d", label, k)
 	}
-	o := &Obligation{Fn: canonName(vc.fn) + vc.suffix, Kind: kind, Label: label, Cond: cond, Goal: goal,
+	fnName := vc.suffix
+	if vc.fn != nil {
+		fnName = canonName(vc.fn) + vc.suffix
+	}
+	o := &Obligation{Fn: fnName, Kind: kind, Label: label, Cond: cond, Goal: goal,
 		NDecl: len(vc.decls), NFact: len(vc.facts), Blk: vc.curBlk, Props: props, Pos: pos, Src: src, vc: vc, Expect: "unsat"}
 	o.Name = o.Fn + "/" + kind
 	if label != "" {
